@@ -72,7 +72,7 @@ func C17(run *ev.Run, tier string) map[string]interface{} {
 		keys := []val.Item{hKey("k1"), hKey("k2")}
 		cfg := c03cfg{name: "GSI-hash", cfg: drv.TableCfg{Hash: "h", HashT: "S", Billing: "PAY_PER_REQUEST", GSI: []drv.IndexCfg{{Name: "gsi", Hash: "g", HashT: "S"}}}, keys: keys}
 		writes := c03Alphabet(cfg)
-		failing := c08Failing(keys, false)
+		failing := c08Failing(keys, false, false)
 		u := Universe{Keys: map[string][]val.Item{"tab": keys, "other": {}}}
 		mk("failing-requests", newImpl, []drv.Op{{K: drv.KCreate, Table: "tab", Cfg: &cfg.cfg}},
 			func(m *model.Model) []drv.Op { return append(writes(m), failing...) },
@@ -99,6 +99,17 @@ func C17(run *ev.Run, tier string) map[string]interface{} {
 		slots := []string{"tb1", "c2:tb1"}
 		mk("lifecycle", newMulti, nil, c18Alphabet(slots, 1, false), c18Observe(slots), cap)
 	}
+	// attribute values: every value tree of C10's alphabet written and read back through both clients
+	{
+		var puts []drv.Op
+		for _, t := range c10Trees(thorough) {
+			puts = append(puts, drv.Op{K: drv.KPut, Tag: "Put(value tree)", Table: "tab", Item: val.Item{"h": val.S("k1"), "v": t}})
+		}
+		uv := Universe{Keys: map[string][]val.Item{"tab": {hKey("k1")}}}
+		mk("value-trees", newImpl, []drv.Op{{K: drv.KCreate, Table: "tab", Cfg: &hcfg}}, func(m *model.Model) []drv.Op { return puts },
+			func(m *model.Model) []drv.Op { return ObserveOps(m, uv) }, len(puts)+10)
+		systems[len(systems)-1].NoExpand = func(op drv.Op, got drv.Resp) bool { return true }
+	}
 	// queries and pagination: every state of the C02 space, the reduced menu with Limits 1 and 2
 	for _, c := range queryConfigs(false) {
 		c := c
@@ -123,7 +134,7 @@ func C17(run *ev.Run, tier string) map[string]interface{} {
 	}
 	cov := total.Coverage()
 	cov["per_system"] = per
-	cov["alphabet"] = "the alphabets of C01, C03, C05, C08 (failing-request menu), C15, C18, C19 and the query/pagination menu of C02/C04, each driven through the v1 and the v2 client in lock-step (product state = both clients), plus a menu of malformed inputs (short/empty table name, nil key, nil item, missing expressions, unknown index)"
+	cov["alphabet"] = "the alphabets of C01, C03, C05, C08 (failing-request menu), C15, C18, C19 and the query/pagination menu of C02/C04, and a PutItem of every value tree of C10, each driven through the v1 and the v2 client in lock-step (product state = both clients), plus a menu of malformed inputs (short/empty table name, nil key, nil item, missing expressions, unknown index)"
 	cov["oracle"] = "the normalised responses of the two clients are identical at every transition and for every observation read: success/failure, error class, items (Query: exact sequence), counts, LastEvaluatedKey, table descriptions, unprocessed items"
 	return cov
 }
